@@ -245,6 +245,33 @@ def r2_filter(ctx):
            expected='other.from != from && other.to == to && other_piece == piece')
 
 
+def r2b_filter_scope(ctx):
+    """the filter of R2 is applied to every candidate of every move: no return of get_ambiguous_moves bypasses the scan"""
+    rule = 'C13.R2-ambiguity-filter'
+    facts = ctx.facts
+    name = AN + 'get_ambiguous_moves'
+    ro = {CHESSMOVE + '::from_square', CHESSMOVE + '::to_square', BOARD + '::get'}
+    outs = Engine(facts, readonly=ro).run(name)
+    ctx.touch(name)
+    rets = [o for o in outs if o.kind == 'return']
+    bad = []
+    n = 0
+    for o in rets:
+        n += 1
+        extra = [show_cond(c) for c in o.conds if not (c[0][0] == 'discr' and 'get@' in show(c[0]))]
+        clo = [e for e in o.events if e[0] == 'closure' and e[1].startswith(name)]
+        scans = [e for e in o.events if e[0] == 'call' and (e[1].endswith('Iterator>::for_each') or e[1].endswith('::for_each'))]
+        snaps = sorted(show(x) for x in clo[0][2]) if clo else []
+        want = ['from_square@', 'to_square@', 'get@']
+        okc = bool(clo) and all(any(w in x_ for x_ in snaps) for w in want) and all('arg1' in x_ for x_ in snaps if 'square@' in x_)
+        oks = bool(scans) and 'arg2' in show(scans[0][2][0])
+        if extra or not okc or not oks:
+            bad.append({'conds': [show_cond(c) for c in o.conds], 'closure upvars': snaps, 'scan': [show(e[2][0]) for e in scans]})
+    ctx.ob(rule, name, 'every return scans all candidate moves with the filter, for every piece kind', n >= 1 and not bad, found=bad or '%d return path(s)' % n,
+           expected='candidate_moves.iter().for_each(filter capturing from/to/piece of this move) on every non-panicking path, under no further condition',
+           why='a rival left out of the scan (early return for some piece kind or square) yields two legal moves with the same label')
+
+
 def label_parts(ctx):
     """Ok-outcomes of chess_move_to_algebraic_notation as ordered part lists"""
     facts = ctx.facts
@@ -401,5 +428,6 @@ def r4_source(ctx):
 def run(ctx):
     r1_disambiguation(ctx)
     r2_filter(ctx)
+    r2b_filter_scope(ctx)
     r3_assembly(ctx)
     r4_source(ctx)
